@@ -279,6 +279,8 @@ CODE_TEXT = {
     901: 'panic', 1001: 'handler started for an RPC begun after shutdown', 1002: 'RPC begun after shutdown was not refused with Unavailable',
     1003: 'tunnel ended after graceful shutdown was initiated', 1004: 'Stop returned before every Serve call had returned',
     1005: 'GracefulStop did not return although the RPCs in flight had finished', 1103: 'settings frame present/absent contrary to advertisement',
+    1201: 'RPC routed to a different tunnel than the round-robin model picks', 1202: 'routing failed / succeeded contrary to the registry model',
+    1203: 'Ready() differs from the registry model', 1204: 'AllReverseTunnels() differs from the registry model', 1205: 'open/close callback not exactly once, in order', 1206: 'WaitForReady still blocked although a matching tunnel is registered',
     1301: 'settings not first / wrong stream id', 1302: 'frame before new_stream or stream ids not increasing', 1303: 'headers twice or after a message',
     1304: 'envelope before previous message finished', 1305: 'continuation without envelope', 1306: 'continuation exceeds announced size',
     1307: 'data frame larger than 16 KiB', 1308: 'frame after close_stream', 1309: 'second close_stream', 1310: 'request data after half-close',
